@@ -333,9 +333,25 @@ class Connection(object):
                 raise
             if t is KeyboardInterrupt and self._config["propagate_KeyboardInterrupt_locally"]:
                 raise
-            self._send(consts.MSG_EXCEPTION, seq, self._box_exc(t, v, tb))
+            self._send_exc(seq, t, v, tb)
         else:
-            self._send(consts.MSG_REPLY, seq, self._box(res))
+            try:
+                self._send(consts.MSG_REPLY, seq, self._box(res))
+            except EOFError:
+                raise
+            except Exception:
+                # the result cannot be encoded: the requester gets that failure as an exception
+                self._send_exc(seq, *sys.exc_info())
+
+    def _send_exc(self, seq, t, v, tb):  # dispatch
+        try:
+            self._send(consts.MSG_EXCEPTION, seq, self._box_exc(t, v, tb))
+        except EOFError:
+            raise
+        except Exception:
+            # the exception's own payload cannot be encoded: report the encoding failure instead
+            t, v, tb = sys.exc_info()
+            self._send(consts.MSG_EXCEPTION, seq, self._box_exc(t, v, tb))
 
     def _box_exc(self, typ, val, tb):  # dispatch?
         return vinegar.dump(typ, val, tb,
